@@ -155,6 +155,19 @@ Theorem C03_same_interface_now_flagged :
 Proof. exact same_interface_now_flagged. Qed.
 Print Assumptions C03_same_interface_now_flagged.
 
+(** regression: Int literals are read as signed 32-bit integers (fixed by /repo commit 556742c); the model's
+    [parse_i32] (= Rust's str::parse::<i32>) agrees with the specification-side range test on every lexeme *)
+Theorem C03_int_range : forall lexeme, parse_i32 lexeme = int32_lexeme lexeme.
+Proof. exact parse_i32_spec. Qed.
+Print Assumptions C03_int_range.
+
+Theorem C03_int_range_flagged :
+  length (check_operation_document w_schema_0 w_doc_17) = 2
+  /\ parse_i32 (s "2147483647") = true /\ parse_i32 (s "-2147483648") = true
+  /\ parse_i32 (s "2147483648") = false /\ parse_i32 (s "-2147483649") = false /\ parse_i32 (s "-") = false.
+Proof. exact int_range_flagged. Qed.
+Print Assumptions C03_int_range_flagged.
+
 Theorem C03_custom_scalar_variable_refuted :
   exists S D, check_operation_document S D = [] /\ rule_ok S D R_vars_defined = false.
 Proof. exists w_schema_0, w_doc_3. exact custom_scalar_variable_refuted. Qed.
